@@ -13,6 +13,7 @@ import (
 	"time"
 
 	limit "github.com/influxdata/influxdb/pkg/limiter"
+	"github.com/influxdata/influxdb/pkg/verifhook"
 )
 
 // Possible errors returned by a hinted handoff queue.
@@ -366,6 +367,9 @@ func (l *queue) Append(b []byte) error {
 	}
 
 	buffered := len(l.limiter) >= 10
+	if verifhook.Enabled {
+		verifhook.Emit("hh.append.locked", l.dir, len(b), buffered)
+	}
 	defer func() {
 		if buffered && len(l.limiter) <= 1 {
 			l.tail.mu.Lock()
@@ -434,6 +438,9 @@ func (l *queue) trimHead() error {
 		}
 		if err := os.Remove(l.head.path); err != nil {
 			return err
+		}
+		if verifhook.Enabled {
+			verifhook.Emit("hh.trim.removed", l.head.path)
 		}
 		l.head = l.segments[0]
 	}
@@ -602,13 +609,22 @@ func (l *segment) flush() error {
 	if err := binary.Write(buf, binary.BigEndian, uint64(l.pos)); err != nil {
 		return err
 	}
+	if verifhook.Enabled {
+		verifhook.Emit("hh.flush.prewrite", l.path, l.size, len(b))
+	}
 
 	if err := l.writeBytes(buf.Bytes()); err != nil {
 		return err
 	}
+	if verifhook.Enabled {
+		verifhook.Emit("hh.flush.written", l.path, l.size, len(b))
+	}
 
 	if err := l.file.Sync(); err != nil {
 		return err
+	}
+	if verifhook.Enabled {
+		verifhook.Emit("hh.flush.synced", l.path, l.size, len(b))
 	}
 
 	if l.currentSize == 0 {
@@ -705,12 +721,21 @@ func (l *segment) advance() error {
 	}
 
 	pos := l.pos + l.currentSize + 8
+	if verifhook.Enabled {
+		verifhook.Emit("hh.advance.prewrite", l.path, l.size, l.pos, pos)
+	}
 	if err := l.writeUint64(uint64(pos)); err != nil {
 		return err
+	}
+	if verifhook.Enabled {
+		verifhook.Emit("hh.advance.written", l.path, l.size, l.pos, pos)
 	}
 
 	if err := l.file.Sync(); err != nil {
 		return err
+	}
+	if verifhook.Enabled {
+		verifhook.Emit("hh.advance.synced", l.path, l.size, l.pos, pos)
 	}
 	l.pos = pos
 
